@@ -263,8 +263,11 @@ void kerl_add_history(const char *s)
   if (history_file) {
     char* escaped = escape(s);
     FILE *fp = fopen(history_file, "a");
-    fprintf(fp, "%s\n", escaped ?: s);
-    fclose(fp);
+    // (the file may not be writable - read-only directory, somebody else's file: the command is still run)
+    if (fp) {
+      fprintf(fp, "%s\n", escaped ?: s);
+      fclose(fp);
+    }
     if (escaped) free(escaped);
   }
 }
